@@ -21,27 +21,27 @@ type Clause struct {
 }
 
 type Contract struct {
-	Key      string // "pkgpath.Func" or "pkgpath.(Recv).Method" normalised (see fnKey)
-	File     string
-	Line     int
-	Trusted  bool
-	Params   []string // explicit parameter names (trusted contracts)
-	Results  []string
-	Inst     map[string][]string // type param -> list of type names
-	Requires []*Clause
-	Ensures  []*Clause
-	Modifies []*Clause // each Text is a comma separated list (already split: one clause per item)
-	LoopInv  map[int][]*Clause
-	LoopMod  map[int][]*Clause
-	Ghost    []*Clause // ghost updates: "ghost at return: x = e" / "ghost at call n: ..."
-	Callback map[string]*Contract
-	PanicsIf *Clause
-	PanicsWhen *Clause // evaluated in the state at the panic site
-	Opts     map[string]string // free options: arith, nopanic, pure, ...
-	Asserts  []*Clause
-	Assumes  []*Clause
-	DeclPkg  string // package whose contract file declared this contract (assume-func)
-	Used     bool
+	Key        string // "pkgpath.Func" or "pkgpath.(Recv).Method" normalised (see fnKey)
+	File       string
+	Line       int
+	Trusted    bool
+	Params     []string // explicit parameter names (trusted contracts)
+	Results    []string
+	Inst       map[string][]string // type param -> list of type names
+	Requires   []*Clause
+	Ensures    []*Clause
+	Modifies   []*Clause // each Text is a comma separated list (already split: one clause per item)
+	LoopInv    map[int][]*Clause
+	LoopMod    map[int][]*Clause
+	Ghost      []*Clause // ghost updates: "ghost at return: x = e" / "ghost at call n: ..."
+	Callback   map[string]*Contract
+	PanicsIf   *Clause
+	PanicsWhen *Clause           // evaluated in the state at the panic site
+	Opts       map[string]string // free options: arith, nopanic, pure, ...
+	Asserts    []*Clause
+	Assumes    []*Clause
+	DeclPkg    string // package whose contract file declared this contract (assume-func)
+	Used       bool
 }
 
 type TypeSpec struct {
@@ -55,22 +55,22 @@ type TypeSpec struct {
 }
 
 type MonitorSpec struct {
-	Lock    string   // field name of the lock ("Mutex" for embedded)
-	Guards  []string // field names (incl. ghost fields) guarded by it
-	Conds   []string // sync.Cond fields
-	Tokens  []string // thread-held ghost tokens (shared count tok_<name> + per-thread count)
-	Inv     []*Clause
-	Level   int
-	Atomic  bool
+	Lock   string   // field name of the lock ("Mutex" for embedded)
+	Guards []string // field names (incl. ghost fields) guarded by it
+	Conds  []string // sync.Cond fields
+	Tokens []string // thread-held ghost tokens (shared count tok_<name> + per-thread count)
+	Inv    []*Clause
+	Level  int
+	Atomic bool
 }
 
 type SpecSet struct {
-	Funcs   map[string]*Contract
-	Types   map[string]*TypeSpec
-	Ghosts  map[string]string // global ghost var -> sort  (key pkgpath.name)
-	Axioms  []*Clause
-	GInv    map[string][]*Clause // package path -> global invariants
-	Funs    map[string]*SpecFun // spec functions (uninterpreted or defined)
+	Funcs     map[string]*Contract
+	Types     map[string]*TypeSpec
+	Ghosts    map[string]string // global ghost var -> sort  (key pkgpath.name)
+	Axioms    []*Clause
+	GInv      map[string][]*Clause // package path -> global invariants
+	Funs      map[string]*SpecFun  // spec functions (uninterpreted or defined)
 	Sentinels map[string]bool
 }
 
